@@ -1,0 +1,113 @@
+//go:build verif
+
+// Contracts for package route, checked by /verif/govc (DESIGN.md §2.2).
+// This file is comment-only: it cannot change the behaviour of any build.
+
+package route
+
+// ---------------------------------------------------------------------------
+// Shape invariants of the route tree (every allocated node)
+// ---------------------------------------------------------------------------
+
+//@ define isTreeChild(t Tree) bool = dyn(t) == type(*staticTree) || dyn(t) == type(*regexTree) ||
+//@     dyn(t) == type(*placeholderTree) || dyn(t) == type(*matchAllTree)
+
+//@ define nodeOK(n *baseTree) bool =
+//@     (forall k int :: 0 <= k && k < len(n.subtrees) ==> isTreeChild(n.subtrees[k])) &&
+//@     (forall k int :: 0 <= k && k < len(n.leaves) ==> n.leaves[k] != nil)
+
+//@ define leafOK(l *baseLeaf) bool = l.handler != nil && l.route != nil && l.segment != nil && l.parent != nil
+
+// The canonical text of a segment / route (C06 gives the rendering its meaning; here only its shape matters).
+//@ uninterpreted segStr(s *Segment) string
+//@ uninterpreted routeStr(r *Route) string
+//@ axiom segStrShape: forall s *Segment :: len(segStr(s)) >= 1 && segStr(s)[0] == '/'
+
+// A segment's cached string, once computed, is its canonical text.
+//@ define segOK(s *Segment) bool = s.strOnce.fired ==> s.str == segStr(s)
+//@ define routeOK(r *Route) bool = r.strOnce.fired ==> r.str == routeStr(r)
+
+//@ define treeWF() bool =
+//@     (forall n *baseTree :: live(n) ==> nodeOK(n)) &&
+//@     (forall l *baseLeaf :: live(l) ==> leafOK(l)) &&
+//@     (forall s *staticTree :: live(s) ==> s.segment != nil) &&
+//@     (forall x *regexTree :: live(x) ==> x.regexp != nil) &&
+//@     (forall y *regexLeaf :: live(y) ==> y.regexp != nil) &&
+//@     (forall g *Segment :: live(g) ==> segOK(g)) &&
+//@     (forall q *Route :: live(q) ==> routeOK(q))
+
+// Rendering (assumed here, C06 verifies the rendering functions against the canonical text)
+//@ trusted (*route.Segment).String(s) r
+//@   requires segOK(s)
+//@   modifies s.str, s.strOnce.fired
+//@   ensures r == segStr(s) && segOK(s)
+//@ trusted (*route.Route).String(r) res
+//@   requires routeOK(r)
+//@   modifies r.str, r.strOnce.fired
+//@   ensures res == routeStr(r) && routeOK(r)
+
+// ---------------------------------------------------------------------------
+// C07: matching never panics
+// ---------------------------------------------------------------------------
+
+//@ func (*baseTree).Match
+//@   props C07
+//@   requires treeWF()
+//@   modifies Segment.str, Segment.strOnce.fired
+//@   ensures treeWF()
+//@   ensures result2 ==> result0 != nil && result1 != nil && fresh(result1)
+//@   ensures !result2 ==> result0 == nil && result1 == nil
+
+//@ func (*baseTree).matchNextSegment
+//@   props C07
+//@   requires treeWF()
+//@   requires 0 <= next && next <= len(path) && params != nil
+//@   modifies params[*], Segment.str, Segment.strOnce.fired
+//@   ensures treeWF()
+//@   ensures result1 ==> result0 != nil
+
+//@ func (*baseTree).matchSubtree
+//@   props C07
+//@   requires treeWF()
+//@   requires 1 <= next && next <= len(path) && params != nil
+//@   modifies params[*], Segment.str, Segment.strOnce.fired
+//@   ensures treeWF()
+//@   loop 0 invariant treeWF()
+//@   ensures result1 ==> result0 != nil
+
+//@ func (*baseTree).matchLeaf
+//@   props C07
+//@   requires treeWF() && params != nil
+//@   modifies params[*], Segment.str, Segment.strOnce.fired
+//@   ensures treeWF()
+//@   ensures result1 ==> result0 != nil
+
+//@ func (*matchAllTree).matchAll
+//@   props C07
+//@   requires treeWF()
+//@   requires 0 <= next && next <= len(path) && params != nil
+//@   modifies params[*], Segment.str, Segment.strOnce.fired
+//@   ensures treeWF()
+//@   ensures result1 ==> result0 != nil
+//@   loop 0 invariant 0 <= next && next <= len(path) && treeWF()
+
+//@ func (*matchAllLeaf).matchAll
+//@   props C07
+//@   requires treeWF()
+//@   requires 1 <= next && next <= len(path) && params != nil
+//@   modifies params[*], Segment.str, Segment.strOnce.fired
+//@   ensures treeWF()
+
+//@ func (*regexTree).match
+//@   props C07
+//@   requires treeWF() && params != nil
+//@   modifies params[*]
+
+//@ func (*regexLeaf).match
+//@   props C07
+//@   requires treeWF() && params != nil
+//@   modifies params[*]
+
+//@ func (*HeaderMatcher).Match
+//@   props C07 C09
+//@   modifies nothing
